@@ -368,6 +368,21 @@ class C04(core.Check):
             for cut in ([40], [40, 1500000], [7, 100]):
                 out.append({"name": "bigbuf%d" % i, "akind": "absent", "tkind": "partial", "A": None, "B": core.b64(B), "T": core.b64(bytes(d)), "limit": r.choice([255, -1, 127]),
                             "style": r.choice([0, 4]), "boundary": "zckverifBOUNDARY", "frag": "cuts:" + ",".join(str(x) for x in cut), "zh": ctx["zh"]})
+        # thousands of separate ranges in one request (a client without a range limit, or with one in the thousands): the request text grows
+        # past the library's 32 KiB string buffer several times
+        for i in range(1 if self.quick else 6):
+            nchk = r.choice([6000, 9000]) if not self.quick else 7000
+            pieces = [b"%06d:" % k + r.randbytes(r.choice([3, 9])) for k in range(nchk)]
+            B = zckref.make_file(pieces, comp_type=0, chunk_hash_type=r.choice([0, 3]))
+            pB = zckref.parse(B)
+            d = bytearray(B)
+            for c in pB.chunks[1:]:
+                if c["number"] % 2 == 1:
+                    a = pB.header_len + c["start"]
+                    d[a:a + c["comp_len"]] = bytes(x ^ 0x5A for x in d[a:a + c["comp_len"]])
+            for lim, sty in ((-1, 0), (5000, 4)) if not self.quick else ((-1, r.choice([0, 4])),):
+                out.append({"name": "manyranges%d" % i, "akind": "absent", "tkind": "partial", "A": None, "B": core.b64(B), "T": core.b64(bytes(d)), "limit": lim,
+                            "style": sty, "boundary": "zckverifBOUNDARY", "frag": "n:16384", "zh": ctx["zh"]})
         # library-written pairs with automatic chunking (content-defined boundaries resynchronise after an edit)
         nlib = 3 if self.quick else 60
         for i in range(nlib):
